@@ -148,6 +148,22 @@ CHECKS = {
              "modelled; the harness. The recorded finding (tracers switched off during foreign modules' import) is outside the theorems: they decide WHO a module is "
              "rewritten for, the finding is about delivery while another module's body runs.",
         ref="DESIGN.md section 7 C12"),
+    "C13": dict(
+        technique="Coq proof (invariant over the cache state, induction over arbitrary process histories: every process observes what it would on an empty cache) with a refutation witness for the recorded finding + in-coqc correspondence (behaviour flag and cache directory content) against enumerated histories of real processes + fresh-directory oracle",
+        text="C13_fresh_partial / C13_fresh_from: for EVERY history of processes over one module - plain imports and imports under any tracer configurations, caching allowed or "
+             "forbidden, the cache writable or not, the source edited between any two processes - each process runs the code of its own configuration compiled from the current "
+             "source with the node table of that very compilation, i.e. exactly what it observes on an empty cache, provided configurations sharing a cache name are the same "
+             "configuration; C13_plain_name: the ordinary cache name belongs to stock compiles only; C13_fresh_refuted: without the proviso the statement fails (recorded finding: "
+             "static node conditions are not in the signature). model/Import.v part 2 models make_cache_signature / cache naming, importlib's validate-or-recompile-and-write "
+             "and exec_module's node-table handling; it is tied to the code by ~60 histories of 2-4 REAL processes per run over one package directory (two tracer classes, the "
+             "same class with other events / guard setting / static condition, no node table, caching forbidden, accept-everything, a stack; writable / read-only / "
+             "no-write; edits): per module and process, `behaves as fresh` and the cache directory content (ordinary .pyc, instrumented .pyc files, .pkl files) are compared "
+             "with run_trace in coqc, and the oracle compares every process (errors, module namespaces, full event log with node validity) with the same process alone on a "
+             "fresh copy at the same source version.",
+        note="Trusted: Coq kernel + vm_compute; the hand model of importlib's get_code and of the file system (one writer at a time; a process writes bytecode and node table or "
+             "neither; mtime distinguishes versions), validated by the correspondence, not verified; the harness (read-only mode by dropping privileges). Five defects found by "
+             "this check were repaired (see known_findings.json); the model describes the repaired code.",
+        ref="DESIGN.md section 7 C13"),
     "C14": dict(
         technique="Coq proof (fold invariant over the two Counters of fix_positions, any number of specs/occurrences) with refutation witnesses + in-coqc correspondence of both functions + placement-record oracle",
         text="C14_cols_partial: for every number of specs with arbitrary length changes, every application order and every multiset of occurrences on a "
